@@ -5,7 +5,7 @@ TU = 'drivers/instantiate.cpp'
 A = 'dsplib::base_array<*>::'
 
 # one-line accessors are executed as written (their bodies are the code that runs)
-inline_fn(A + 'size', A + 'data', A + 'begin', A + 'end', A + 'empty', A + 'operator()', A + 'to_vec')
+inline_fn(A + 'slice', A + 'size', A + 'data', A + 'begin', A + 'end', A + 'empty', A + 'operator()', A + 'to_vec')
 
 # element access: operator[](int) accepts [-n, n); operator[](size_t) accepts [0, n)
 for sig in ('&(int)',):
